@@ -95,6 +95,8 @@ pub struct Profile {
     pub max_peer_sends: u32,
     /// chance that a plain tell / ask is wrapped in a caller-side timeout (cancellation)
     pub p_cancel: (u32, u32),
+    /// chance that an ask_with_timeout is issued by a busy caller (polled late)
+    pub p_late: (u32, u32),
 }
 
 impl Profile {
@@ -159,6 +161,7 @@ impl Profile {
             p_task_block: (0, 1),
             max_peer_sends: 1,
             p_cancel: (0, 1),
+            p_late: (0, 1),
         }
     }
 }
@@ -192,6 +195,7 @@ impl<'a> Gen<'a> {
             3 => How::AskT(self.timeout()),
             _ => How::AskJoin,
         };
+        let h = self.maybe_late(h);
         self.maybe_cancel(h)
     }
 
@@ -202,6 +206,16 @@ impl<'a> Gen<'a> {
         match h {
             How::Tell if self.ch.chance(self.p.p_cancel.0, self.p.p_cancel.1) => How::TellC(self.timeout()),
             How::Ask if self.ch.chance(self.p.p_cancel.0, self.p.p_cancel.1) => How::AskC(self.timeout()),
+            other => other,
+        }
+    }
+
+    fn maybe_late(&mut self, h: How) -> How {
+        if self.p.p_late.0 == 0 {
+            return h;
+        }
+        match h {
+            How::AskT(t) if self.ch.chance(self.p.p_late.0, self.p.p_late.1) => How::AskTL(t, even(self.ch, 24)),
             other => other,
         }
     }
@@ -219,7 +233,7 @@ impl<'a> Gen<'a> {
         };
         match mode {
             ClientMode::Task => {
-                if base != How::AskJoin && base.cancel_after().is_none() && self.ch.chance(self.p.p_task_block.0, self.p.p_task_block.1) {
+                if base != How::AskJoin && base.cancel_after().is_none() && base.late().is_none() && self.ch.chance(self.p.p_task_block.0, self.p.p_task_block.1) {
                     let t = self.timeout();
                     blockify(base, Some(t), false)
                 } else {
@@ -227,7 +241,7 @@ impl<'a> Gen<'a> {
                 }
             }
             _ => {
-                if base == How::AskJoin || base.cancel_after().is_some() {
+                if base == How::AskJoin || base.cancel_after().is_some() || base.late().is_some() {
                     return base;
                 }
                 match self.ch.weighted(&self.p.w_block) {
